@@ -1200,7 +1200,7 @@ var ruleParams = &core.Rule{ID: "R02.2", Min: 5,
 
 // R02.5 + R05.3
 var ruleErrorReturns = &core.Rule{ID: "R02.5", Min: 6,
-	Doc: "error discipline in the entry points: every error result of a callee is tested; on the non-nil edge the function returns (detached octet-stream sentinel, that error) — the ReadFull error alone may be excused, and only by comparison with io.EOF / io.ErrUnexpectedEOF; success returns carry a nil error",
+	Doc: "error discipline in the entry points: every error result of a callee is tested; on the non-nil edge the function returns (detached octet-stream sentinel, that error) — the ReadFull error alone may be excused, and only by identity comparison with io.EOF / io.ErrUnexpectedEOF (errors.Is, which also accepts wrapped sentinels coming from the reader, excuses nothing); the error may be merged into an error variable with other errors or nil; success returns carry a nil error",
 	Run: func(c *core.Ctx, s *core.Sink) {
 		m := getWalk(c)
 		cm := getConc(c)
